@@ -159,6 +159,9 @@ def run(ctx, chk):
             chk.undecided("C08.entitlement", f"{K}: class unknown to the entitlement table")
             continue
         target_rows = []
+        # stores into the observation that were not decoded as "row <- masked vector": with any of
+        # them around, a missing row is not a fact (the row may be the undecoded store)
+        blind = [f"{e.kind} {e.fam} at {e.ev.loc}" for e in other]
         for r in rows:
             n_rows += 1
             addr = cn.show(r.addr)
@@ -170,6 +173,7 @@ def run(ctx, chk):
             if v[0] != "zeros":
                 chk.violation("C08.truthful", f"{K}: row {addr} <- {cn.show(v)[:80]} is not an "
                               "observed (masked) vector", "", r.ev.loc)
+                blind.append(f"row {addr} at {r.ev.loc}")
                 continue
             cells = vec_cells(of.effects, cn, v[3])
             fams = {}
@@ -219,17 +223,21 @@ def run(ctx, chk):
             else:
                 chk.violation("C08.where", f"{K}: host row {addr} written (only the target's row "
                               "may be)", f"condition {f_show(cond)}", r.ev.loc)
-        chk.ob("C08.where", f"{K}: exactly one store of the target's row", len(target_rows) == 1,
-               f"{len(target_rows)} store(s)", fn)
+        def present(desc, ok, detail):
+            if not ok and blind:
+                chk.undecided("C08.where", desc, f"{detail}; not decoded: {'; '.join(blind[:3])}", fn)
+            else:
+                chk.ob("C08.where", desc, ok, detail, fn)
+        present(f"{K}: exactly one store of the target's row", len(target_rows) == 1,
+                f"{len(target_rows)} store(s)")
         # presence: a successful action writes its target's row; a subnet scan also one row per
         # discovered address (an entitled row that is never written is an omission)
         addrs = [cn.show(r.addr) for r in rows]
-        chk.ob("C08.where", f"{K}: the target's row is written", "action.target" in addrs,
-               f"rows written: {sorted(set(addrs))}", fn)
+        present(f"{K}: the target's row is written", "action.target" in addrs,
+                f"rows written: {sorted(set(addrs))}")
         if K == "SubnetScan":
-            chk.ob("C08.where", "SubnetScan: a row is written for each discovered address",
-                   any(a != "action.target" for a in addrs), f"rows written: {sorted(set(addrs))}",
-                   fn)
+            present("SubnetScan: a row is written for each discovered address",
+                    any(a != "action.target" for a in addrs), f"rows written: {sorted(set(addrs))}")
         # exhaustiveness: the NotImplementedError arm is unreachable for this class
         chk.ob("C08.exhaustive", f"{K}: has an observation branch (no raise reachable)",
                not of.raises, "; ".join(ev.loc for ev in of.raises), fn, nontrivial=False)
@@ -264,7 +272,14 @@ def check_initial(ctx, chk):
         addr = cn.show(r.addr)
         cond = cn.conj(r.ev.pc)
         v = cn.norm(r.value)
-        cells = vec_cells(effects, cn, v[3]) if v[0] == "zeros" else []
+        if v[0] != "zeros":
+            chk.undecided("C08.initial", "initial observation, partial: address, reachable, "
+                          "discovered of exactly the hosts whose reachable flag is set",
+                          f"row {addr} <- {cn.show(v)[:100]} is not decoded as a masked copy of the "
+                          "host's vector (built by other means than zeros + per-family copies)",
+                          fi.module.path)
+            return
+        cells = vec_cells(effects, cn, v[3])
         fams = {c.fam for c in cells}
         src = all(cn.norm(c.value)[0] == "cell" and cn.show(cn.norm(c.value)[1][2]) == addr
                   and cn.norm(c.value)[2] == c.fam for c in cells)
